@@ -226,7 +226,7 @@ Section Sound.
     - destruct b.
       + replace (2 * path_value r + 1) with (1 + 2 * path_value r) by lia. rewrite N.odd_add_mul_2. reflexivity.
       + replace (2 * path_value r + 0) with (0 + 2 * path_value r) by lia. rewrite N.odd_add_mul_2. reflexivity.
-    - replace ((2 * path_value r + (if b then 1 else 0)) / 2) with (path_value r); [exact IH|].
+    - rewrite N.div2_div. replace ((2 * path_value r + (if b then 1 else 0)) / 2) with (path_value r); [exact IH|].
       destruct b; lia.
   Qed.
 
